@@ -179,7 +179,6 @@ def solve_main(objfun, x0, argsf, xl, xu, projections, npt, rhobeg, rhoend, maxf
         for i in range(1, number_of_samples):  # skip first eval - already did this
             if nf >= maxfun:
                 exit_info = ExitInformation(EXIT_MAXFUN_WARNING, "Objective has been called MAXFUN times")
-                nruns_so_far += 1
                 break  # stop evaluating at x0
 
             nf += 1
@@ -200,9 +199,12 @@ def solve_main(objfun, x0, argsf, xl, xu, projections, npt, rhobeg, rhoend, maxf
                 exit_info = ExitInformation(EXIT_SUCCESS, "Objective is sufficiently small")
 
         if exit_info is not None:
-            xmin_eval_num = 0
-            jacmin_eval_nums = np.array([0], dtype=int)
-            return x0, r0_avg, sumsq(r0_avg), None, num_samples_run, nf, nx, nruns_so_far+1, exit_info, diagnostic_info, xmin_eval_num, jacmin_eval_nums
+            xmin_eval_num = nx  # x0 is the only point of this run (evaluation points are 1-indexed)
+            jacmin_eval_nums = None  # no Jacobian available
+            obj0_avg = sumsq(r0_avg)
+            if h is not None:
+                obj0_avg += h(remove_scaling(x0, scaling_changes), *argsh)
+            return x0, r0_avg, obj0_avg, None, num_samples_run, nf, nx, nruns_so_far+1, exit_info, diagnostic_info, xmin_eval_num, jacmin_eval_nums
 
     else:  # have old r0 information (e.g. from previous restart), use this instead
 
